@@ -57,6 +57,9 @@ func confs() []conf {
 		{"bound-2^53", mod(func(c *sync.Config) {
 			c.ReferenceClockImpact, c.PeerClockImpact, c.SyncInterval, c.SyncTimeout = 2, 4, time.Duration(1)<<52, time.Second
 		}), 0, true, time.Duration(1) << 52},
+		{"ref-bound-2^62-peer-bound-2^63", mod(func(c *sync.Config) {
+			c.ReferenceClockImpact, c.PeerClockImpact, c.SyncInterval, c.SyncTimeout = 2, 4, time.Duration(1)<<61, time.Second
+		}), 0, true, time.Duration(1) << 61},
 		{"bounds-5e18-7e18", mod(func(c *sync.Config) {
 			c.ReferenceClockImpact, c.PeerClockImpact, c.SyncInterval, c.SyncTimeout = 5, 7, time.Duration(1e18), time.Second
 		}), 0, true, time.Duration(1e18)},
@@ -122,8 +125,14 @@ func (s *src) MeasureClockOffset(ctx context.Context) (time.Time, time.Duration,
 
 func values(c conf) []time.Duration {
 	drift := c.drift()
-	rm := time.Duration(c.cfg.ReferenceClockImpact * float64(drift))
-	pm := time.Duration(c.cfg.PeerClockImpact * float64(drift))
+	sat := func(f float64) time.Duration {
+		if f < math.MaxInt64 {
+			return time.Duration(f)
+		}
+		return math.MaxInt64 - 1
+	}
+	rm := sat(c.cfg.ReferenceClockImpact * float64(drift))
+	pm := sat(c.cfg.PeerClockImpact * float64(drift))
 	cut := c.cfg.PeerClockCutoff
 	vs := []time.Duration{0, 1, -1, cut, -cut, cut + 1, -(cut + 1), rm, -rm, rm + 1, -(rm + 1), pm, -pm, pm + 1, -(pm + 1), 1 << 62, -(1 << 62), math.MaxInt64, math.MinInt64}
 	var out []time.Duration
@@ -222,8 +231,13 @@ func program(r *mc.Run, c conf, nref, npeer, rounds int, freeValues bool) func(x
 			peerS, peerC := mk(npeer, "peer")
 			a := &adj{}
 			drift := w.Clock.Drift(c.cfg.SyncInterval)
-			refCap := time.Duration(math.Floor(c.cfg.ReferenceClockImpact * float64(drift)))
-			peerCap := time.Duration(math.Floor(c.cfg.PeerClockImpact * float64(drift)))
+			capOf := func(f float64) time.Duration {
+				if b := math.Floor(f * float64(drift)); b < math.MaxInt64 {
+					return time.Duration(b)
+				}
+				return math.MaxInt64 // a bound beyond the int64 range bounds nothing
+			}
+			refCap, peerCap := capOf(c.cfg.ReferenceClockImpact), capOf(c.cfg.PeerClockImpact)
 			var cost func(int) int
 			if freeValues {
 				cost = func(int) int { return 0 }
@@ -364,6 +378,6 @@ func TestCheck(t *testing.T) {
 				}
 			}
 		}
-		r.Extra["rule"] = "5 admissible configurations (default, edge factors with tiny drift, long interval with zero cutoff, a bound of exactly 2^53 ns, bounds of 5e18 / 7e18 ns; a sixth, zero timeout, for start-up acceptance only) x {0,1,2,4} reference clocks x {0,1,3} peers; per round a group value per source group from a 19-value alphabet around cutoff / caps / int64 extremes, per source {in time, other value, error, late, blocked until cancelled, never returns}; layer 1: one round, all value pairs, <=2 (3) source deviations; layer 2: 3 (4) rounds within 3 (4) deviations; 10 inadmissible configurations must be refused before any measurement"
+		r.Extra["rule"] = "6 admissible configurations (default, edge factors with tiny drift, long interval with zero cutoff, a bound of exactly 2^53 ns, a reference bound of 2^62 ns with the peer bound at 2^63 ns, bounds of 5e18 / 7e18 ns; a seventh, zero timeout, for start-up acceptance only) x {0,1,2,4} reference clocks x {0,1,3} peers; per round a group value per source group from a 19-value alphabet around cutoff / caps / int64 extremes, per source {in time, other value, error, late, blocked until cancelled, never returns}; layer 1: one round, all value pairs, <=2 (3) source deviations; layer 2: 3 (4) rounds within 3 (4) deviations; 10 inadmissible configurations must be refused before any measurement"
 	})
 }
